@@ -273,7 +273,7 @@ def run(tier):
     exp = {('Join', '_1'): lambda v: field_path(v) == (('param', 1), ['configuration', 'join_accept_delay1']),
            ('Join', '_2'): lambda v: field_path(v) == (('param', 1), ['configuration', 'join_accept_delay2']),
            ('Data', '_1'): lambda v: field_path(v) == (('param', 1), ['configuration', 'rx1_delay']),
-           ('Data', '_2'): lambda v: v[0] == 'Add' and field_path(v[1]) == (('param', 1), ['configuration', 'rx1_delay']) and v[2] == ('const', 1000)}
+           ('Data', '_2'): lambda v: (lambda l_: l_[1] == 1000 and len(l_[0]) == 1 and list(l_[0].values()) == [1] and field_path(list(l_[0])[0]) == (('param', 1), ['configuration', 'rx1_delay']))(rules.linear(v))}
     for (f_, w_), pred in sorted(exp.items()):
         v = cell(f_, w_)
         res.require(v is not None and pred(peel(v)), 'C10:get_rx_delay:%s:%s' % (f_, w_), 'delay for (%s, %s) is %s' % (f_, w_, term_str(v) if v is not None else None), bf.body.path,
